@@ -221,6 +221,9 @@ func (s *scanner) scanner(store *stor.Stor) {
 		if off == 0 { // finished (either at end or stopped)
 			break
 		}
+		if off+uint64(stateLen) > store.Size() {
+			continue // truncated, not a complete state
+		}
 		buf := store.Data(off)
 		if string(buf[magic2at:magic2at+len(magic2)]) != magic2 {
 			continue
